@@ -10,7 +10,8 @@
 (***************************************************************************)
 EXTENDS Paths, Json
 
-DirKinds == {"unset", "rel", "nested", "abs"}
+DirKinds == {"unset", "rel", "nested", "abs",
+             "dotrel"}   \* "./relsnaps": a relative Dir is joined to the test file's directory and cleaned, whatever its spelling
 Shapes   == {"direct", "helper1", "helper3", "closure", "nontest", "nontest2", "deep40", "deep100", "subtest", "subtest2",
              "otherfile",   \* through a helper declared in another *_test.go file of the package
              "dotfile"}     \* ... whose name has a dot of its own (pay.v2_test.go)
@@ -27,7 +28,7 @@ Cells == {c \in [dir : DirKinds, filename : {"", "custom"}, ext : {"", ".txt"}, 
             \* -trimpath builds are only run from the package directory (documented limitation)
             ~(c.cwd = "foreign" /\ c.variant \in {"trimpath", "deep-trimpath", "envtrimpath"})}
 
-DirVal(k) == CASE k = "unset" -> "" [] k = "rel" -> "relsnaps" [] k = "nested" -> "nested/rel/dir" [] OTHER -> "/ABS/abs/snaps"
+DirVal(k) == CASE k = "unset" -> "" [] k \in {"rel", "dotrel"} -> "relsnaps" [] k = "nested" -> "nested/rel/dir" [] OTHER -> "/ABS/abs/snaps"
 CfgOf(c)  == [dir |-> DirVal(c.dir), filename |-> c.filename, ext |-> c.ext]
 TDirOf(c) == IF c.variant \in {"deep", "deep-trimpath"} THEN "/PKG/sub/deep" ELSE "/PKG"
 \* the calling test file is the innermost *_test.go frame
